@@ -1,7 +1,8 @@
 """C06 - titles, headers, footnotes and sources on exactly the configured pages.
 
 Space (exhaustive): page_title x page_footnote x page_source x footnote{absent,table,para}
-x source{...} x pageby_header x strategy{plain,page_by,subline_by} x header{explicit,default,none}
+x source{...} x pageby_header x strategy{plain,page_by,subline_by} x header{explicit,default,none};
+placements x footnote/source modes x {page_by new_page (first_row / column), two page_by levels, subline_by + page_by}
 x page-count class {1 page, 2, 3, many}; radius-<=2 ball over orientation / paper / margins /
 page header / page footer around every placement anchor; figure documents 1..4 figures x
 placement^3 x caption presence.
@@ -194,7 +195,13 @@ STRATS = {
     "plain": {},
     "page_by": lambda n: {"page_by": [[r * 2 // max(n, 1) for r in range(n)]]},
     "subline_by": lambda n: {"subline_by": [[r * 2 // max(n, 1) for r in range(n)]]},
+    # forced page starts inside the document: every group ends on a page of its own that is NOT the last page
+    "page_by_newpage_firstrow": lambda n: {"page_by": [[r * 3 // max(n, 1) for r in range(n)]], "new_page": True, "pageby_row": "first_row"},
+    "page_by_newpage_column": lambda n: {"page_by": [[r * 3 // max(n, 1) for r in range(n)]], "new_page": True, "pageby_row": "column"},
+    "page_by2": lambda n: {"page_by": [[r * 2 // max(n, 1) for r in range(n)], [r * 4 // max(n, 1) for r in range(n)]]},
+    "subline_by+page_by": lambda n: {"subline_by": [[r * 2 // max(n, 1) for r in range(n)]], "page_by": [[r * 4 // max(n, 1) for r in range(n)]]},
 }
+MORE_STRATS = ("page_by_newpage_firstrow", "page_by_newpage_column", "page_by2", "subline_by+page_by")
 # (rows, nrow) chosen so that page counts 1, 2, 3, many all occur for every reservation
 SIZES = [(2, 40), (6, 9), (8, 7), (12, 6)]
 TINY = [(0, 40), (1, 40), (1, 1)]  # empty and one-row tables: one page, all placement options coincide
@@ -275,6 +282,13 @@ def plan(run):
                     for size in TINY:
                         core.append(table_spec(pt, pf, ps, fn, src, True, strat, hm, size))
     run.layer("placement-product", "mc.props.c06:eval_case", core, chunk=60, total=len(core))
+    more = []
+    for pt, pf, ps in itertools.product(PLACE, repeat=3):
+        for fn, src in (("table", "para"), ("para", "table"), ("table", "table")) if quick else [m for m in itertools.product(modes, repeat=2) if any(m)]:
+            for strat in MORE_STRATS:
+                for size in (SIZES[1:3] if quick else SIZES[1:]):
+                    more.append(table_spec(pt, pf, ps, fn, src, True, strat, "explicit", size))
+    run.layer("placement-x-forced-breaks-and-nested-groups", "mc.props.c06:eval_case", more, chunk=60, total=len(more))
     # geometry ball
     geoms = geom_variants(2)
     anchors = []
